@@ -257,10 +257,10 @@ theorem urlArgs_skip_propname : ∀ (pn value : Str), '(' ∉ pn → urlArgs (pn
 
 /-! ### an accepted `url()` argument, as the browser reads it -/
 
-/-- the scheme a browser reads in the argument, with its `+ - .` removed, is a safe scheme
-    (for a scheme of letters and digits: the scheme itself is safe) -/
+/-- the scheme a browser reads in the argument (after trimming CSS white space and quotes), if
+    any, is a safe scheme -/
 def GoodArg (cfg : Cfg) (arg : Str) : Prop :=
-  ∀ sch, browserScheme (trimArg arg) = some sch → dropPunct sch ∈ cfg.safeSchemes
+  ∀ sch, browserScheme (trimArg arg) = some sch → sch ∈ cfg.safeSchemes
 
 theorem stripBy_decomp (p : Char → Bool) (s : Str) : ∃ t1 t2, s = t1 ++ Genshi.Str.stripBy p s ++ t2 ∧
     (∀ c ∈ t1, p c = true) ∧ (∀ c ∈ t2, p c = true) := by
@@ -342,9 +342,9 @@ theorem split1_colon_before_semicolon {g m pw rw : Str} (h : split1 ':' (g ++ ';
         simp
       rw [this]; simp
 
-theorem quote_space_not_alnum {c : Char} (h : isSpace c = true ∨ isQuote c = true) : isAlnum c = false := by
+theorem quote_space_not_kept {c : Char} (h : isSpace c = true ∨ isQuote c = true) : keepInScheme c = false := by
   rcases h with h | h
-  · apply isAlnum_of_isWsCtl
+  · apply keep_of_isWsCtl
     unfold isWsCtl; simp [h]
   · unfold isQuote at h
     simp only [Bool.or_eq_true, decide_eq_true_eq] at h
@@ -354,7 +354,7 @@ theorem good_of_safe {cfg : Cfg} {g arg : Str} (hsafe : isSafeUri cfg g = true)
     (harg : arg = g ∨ ∃ m, arg = g ++ ';' :: m) : GoodArg cfg arg := by
   intro sch hb
   obtain ⟨lead, trail, hdec, hlead⟩ := trimArg_decomp arg
-  obtain ⟨pre, r, hsp, hlow, hall⟩ := browserScheme_pre' hb
+  obtain ⟨pre, r, hsp, hlow, hall⟩ := browserScheme_pre hb
   -- the first colon of the whole argument
   have hcl : ':' ∉ lead := by
     intro hm
@@ -374,12 +374,12 @@ theorem good_of_safe {cfg : Cfg} {g arg : Str} (hsafe : isSafeUri cfg g = true)
     · exact not_mem_pre hall h1 h2 hm
   have hhash : '#' ∉ lead ++ pre := hnot '#' (by decide) (by decide) (by decide) (by decide)
   have hsemi : ';' ∉ lead ++ pre := hnot ';' (by decide) (by decide) (by decide) (by decide)
-  have hfil : (lead ++ pre).filter isAlnum = pre.filter isAlnum := by
+  have hfil : (lead ++ pre).filter keepInScheme = pre.filter keepInScheme := by
     rw [List.filter_append]
-    have : lead.filter isAlnum = [] := by
+    have : lead.filter keepInScheme = [] := by
       apply List.filter_eq_nil_iff.mpr
       intro c hc
-      simp [quote_space_not_alnum (hlead c hc)]
+      simp [quote_space_not_kept (hlead c hc)]
     rw [this]; simp
   have hg : ∃ r', split1 ':' g = (lead ++ pre, some r') := by
     rcases harg with rfl | ⟨m, rfl⟩
@@ -550,7 +550,7 @@ theorem decl_urls_safe {cfg : Cfg} (hcfg : CssNamesPlain cfg) {d : Str} (hf : De
   exact hurl
 
 /-- **every `url(` argument of the style text that `sanitize_css` emits, as the browser decodes and
-    reads it, was accepted by `is_safe_uri`**: its scheme, if made of letters and digits, is safe -/
+    reads it, was accepted by `is_safe_uri`**: the scheme a browser reads in it, if any, is safe -/
 theorem sanitizeCss_urls_safe (hd : SanClass.commentsDotall = true) {cfg : Cfg} (hcfg : CssNamesPlain cfg)
     {x : Str} {decls : List Str} (h : sanitizeCss cfg x = .ok decls) :
     ∀ arg ∈ urlArgs (cssDecode (Genshi.Str.join declSep decls)), GoodArg cfg arg := by
